@@ -52,6 +52,16 @@ CHECKS = {
         "(who is served, destinations, rejects, registration flags, step dictionary, completion callbacks).",
         "SNMP read stubbed; sent datagrams classified structurally by the harness; raising on malformed datagrams is outside the statement.",
     ),
+    "C19": (
+        "DESIGN.md 5/C19",
+        "TLC model of hidden mutable cells and entry-point families (Purity.tla) + reference results from pristine processes + TLC trace validation of random call interleavings",
+        "TLC explores all interleavings of entry-point families over the hidden mutable cells (CRC registers, cached tables, mutable "
+        "defaults, class-level token tables) and checks that no family reads what an earlier call left behind; ~165 catalogue "
+        "signatures are measured as the first call of a pristine process, again with the date shifted by 400 days, and inside "
+        "random interleavings of ~350 calls; TLC compares every call with the reference and checks argument buffers; observed cell "
+        "changes are compared with the model (drift).",
+        "The catalogue is finite and listed by the harness; hidden cells are read through private attributes for the drift check only; results compared by value.",
+    ),
 }
 
 NOT_YET = {}
